@@ -9,18 +9,19 @@ LEVEL = "model_checking"
 def run(ck):
     q = ck.tier == "quick"
     bl, ex = c04.model_and_gen(ck)
-    rep = vh(["blind", "replay", "--cases", bl, "--seed", ck.seed, "--k", 1 if q else 2, "--threads", 8 if q else 16, "--props", "C05"],
+    rep = vh(["blind", "replay", "--cases", bl, "--seed", ck.seed, "--k", 1 if q else 2, "--threads", 12 if q else 16, "--props", "C05"],
              timeout=7000)
     ck.add_vh(rep, distinct_key="distinct_cases")
-    rep = vh(["blind", "explicit", "--cases", ex, "--seed", ck.seed], timeout=7000)
+    rep = vh(["blind", "explicit", "--cases", ex, "--seed", ck.seed, "--threads", 12], timeout=7000)
     ck.add_vh(rep, distinct_key="distinct_cases")
     # exact-value / exact-asset proofs of blinded PSETs: positive and negative
     pb = c09.gen(ck, parties=2)
     rep = vh(["psetblind", "replay", "--cases", pb, "--seed", ck.seed, "--threads", 8, "--stride3", 1], timeout=7000)
     ck.add_vh(rep, distinct_key="distinct_cases")
-    ck.cov["rule"] = ("tampers: for every blinded skeleton of C04, every tamper the specification lists (explicit amount / asset, commitment "
+    ck.cov["rule"] = ("tampers: for every blinded skeleton of C04 and for hand-blinded bases with one output in value-only or asset-only mode (built with "
+                      "blind_with_shared_secret / Asset::blind / ValueBlindingFactor::last), every tamper the specification lists (explicit amount / asset, commitment "
                       "replaced or exchanged, range / surjection proof dropped, exchanged, bit-corrupted, script of a blinded output, "
-                      "issuance amount, each spent output's value / asset / blinders, spent-output list one short / one long) at every "
+                      "issuance amount and token amount (explicit: +1, committed: other blinder), each spent output's value / asset / blinders, spent-output list one short / one long) at every "
                       "applicable position must make verify_tx_amt_proofs fail, with the error class where the specification fixes it; "
                       "explicit table: every all-explicit transaction with <= 2 inputs, <= 2-3 outputs, values 0..2, two assets + an "
                       "issued one, std / unspendable scripts, verdict = specification's Verify; exact-value / exact-asset proofs of "
